@@ -112,7 +112,8 @@ func (rp *runnablePacker[I, O, TOption]) toComposableRunnable() *composableRunna
 	i := func(ctx context.Context, input any, opts ...any) (output any, err error) {
 		in, ok := input.(I)
 		if !ok {
-			panic(newUnexpectedInputTypeErr(inputType, reflect.TypeOf(input)))
+			// state handlers and other wrappers run on the run loop's goroutine: a panic would escape from the run
+			return nil, newUnexpectedInputTypeErr(inputType, reflect.TypeOf(input))
 		}
 
 		tos, err := convertOption[TOption](opts...)
@@ -125,7 +126,7 @@ func (rp *runnablePacker[I, O, TOption]) toComposableRunnable() *composableRunna
 	t := func(ctx context.Context, input streamReader, opts ...any) (output streamReader, err error) {
 		in, ok := unpackStreamReader[I](input)
 		if !ok {
-			panic(newUnexpectedInputTypeErr(reflect.TypeOf(in), input.getType()))
+			return nil, newUnexpectedInputTypeErr(reflect.TypeOf(in), input.getType())
 		}
 
 		tos, err := convertOption[TOption](opts...)
@@ -448,7 +449,11 @@ func toGenericRunnable[I, O any](cr *composableRunnable, ctxWrapper func(ctx con
 			return output, err
 		}
 
-		return out.(O), err
+		o, ok := out.(O)
+		if !ok {
+			return output, newUnexpectedInputTypeErr(generic.TypeOf[O](), reflect.TypeOf(out))
+		}
+		return o, nil
 	}
 
 	t := func(ctx context.Context, input *schema.StreamReader[I],
